@@ -294,6 +294,9 @@ func init() {
 		st.assume("(=> (distinct " + e.T + " 0) (and (= (sMsg " + s.T + ") (errText " + e.T + ")) (= (sDetails " + s.T + ") 0) (= (sCode " + s.T + ") (ite (errIs " + e.T + " " + dl + ") 4 (ite (errIs " + e.T + " " + cn + ") 1 2)))))")
 		return s
 	})
+	ext(pkgStatus+".New", "status.New(c,msg): a *Status with that code and message", func(c *ExtCtx) Val {
+		return c.mk(0, c.st.bind("status", "Int", "(mkStatus "+c.args[0].T+" "+c.args[1].T+" 0)"))
+	})
 	ext(pkgStatus+".Error", "status.Error(c,msg) == New(c,msg).Err()", func(c *ExtCtx) Val {
 		return c.mk(0, c.st.bind("sterr", "Int", "(sErr (mkStatus "+c.args[0].T+" "+c.args[1].T+" 0))"))
 	})
@@ -343,7 +346,24 @@ func (c *ExtCtx) newCtx(parent Val, prefix string) Val {
 	ref := c.ex.allocRef()
 	c.st.assume("(= (ctx_parent " + ref + ") " + parent.T + ")")
 	c.st.write("ctxdone", "Bool", ref, c.st.read("ctxdone", "Bool", parent.T))
+	// descendant relation, instantiated for the ancestors known on this path
+	c.st.assume("(desc " + ref + " " + parent.T + ")")
+	anc := append([]string{parent.T}, c.ex.ancestors[parent.T]...)
+	for _, a := range c.ex.ancestors[parent.T] {
+		c.st.assume("(desc " + ref + " " + a + ")")
+	}
+	c.ex.ancestors[ref] = anc
+	// values (incoming/outgoing metadata, transport stream) are inherited unless overridden
+	c.st.assume("(= (ctx_md_in " + ref + ") (ctx_md_in " + parent.T + "))")
+	c.st.assume("(= (ctx_md_out " + ref + ") (ctx_md_out " + parent.T + "))")
+	c.st.assume("(= (ctx_has_md_out " + ref + ") (ctx_has_md_out " + parent.T + "))")
 	return c.ex.mkVal(parent.Typ, ref)
+}
+
+// inheritDeadline: contexts derived without a new deadline keep the parent's
+func (c *ExtCtx) inheritDeadline(ctx, parent Val) {
+	c.st.assume("(= (ctx_hasdl " + ctx.T + ") (ctx_hasdl " + parent.T + "))")
+	c.st.assume("(= (ctx_newdl " + ctx.T + ") (ctx_newdl " + parent.T + "))")
 }
 
 func (c *ExtCtx) newCancel(ctx Val, t types.Type) Val {
@@ -394,6 +414,7 @@ func init() {
 	})
 	withCancel := func(c *ExtCtx) Val {
 		ctx := c.newCtx(c.args[0], "ctx")
+		c.inheritDeadline(ctx, c.args[0])
 		return c.tuple(ctx, c.newCancel(ctx, c.resType(1)))
 	}
 	ext("context.WithCancel", "WithCancel(p): fresh child c (parent(c)==p, done(p) ==> done(c)) and a cancel function for c", withCancel)
@@ -401,6 +422,7 @@ func init() {
 	ext("context.WithTimeout", "WithTimeout(p,d): fresh child with a deadline (ctx_hasdl), ctx_timeout(c)==d, and a cancel function", func(c *ExtCtx) Val {
 		ctx := c.newCtx(c.args[0], "ctx")
 		c.st.assume("(ctx_hasdl " + ctx.T + ")")
+		c.st.assume("(ctx_newdl " + ctx.T + ")")
 		c.st.assume("(= (ctx_timeout " + ctx.T + ") " + c.args[1].T + ")")
 		return c.tuple(ctx, c.newCancel(ctx, c.resType(1)))
 	})
@@ -418,10 +440,14 @@ func init() {
 
 	// ---------- stats handlers ----------
 	ext("("+pkgStats+".Handler).TagRPC", "stats.Handler.TagRPC(ctx,info): returns a context whose parent is ctx (F1: no goat state touched)", func(c *ExtCtx) Val {
-		return c.newCtx(c.args[1], "tagged")
+		ctx := c.newCtx(c.args[1], "tagged")
+		c.inheritDeadline(ctx, c.args[1])
+		return ctx
 	})
 	ext("("+pkgStats+".Handler).TagConn", "stats.Handler.TagConn(ctx,info): returns a context whose parent is ctx", func(c *ExtCtx) Val {
-		return c.newCtx(c.args[1], "tagged")
+		ctx := c.newCtx(c.args[1], "tagged")
+		c.inheritDeadline(ctx, c.args[1])
+		return ctx
 	})
 	ext("("+pkgStats+".Handler).HandleRPC", "stats.Handler.HandleRPC(ctx,ev): no effect on goat state; counted per event type", func(c *ExtCtx) Val {
 		if ev := c.args[2]; ev.Dyn != nil {
@@ -470,7 +496,42 @@ func init() {
 	})
 	ext(pkgGrpc+".NewContextWithServerTransportStream", "grpc.NewContextWithServerTransportStream(ctx,s): child context carrying s", func(c *ExtCtx) Val {
 		ctx := c.newCtx(c.args[0], "stsctx")
+		c.inheritDeadline(ctx, c.args[0])
 		c.st.assume("(= (ctx_sts " + ctx.T + ") " + c.args[1].T + ")")
 		return ctx
 	})
+}
+
+func init() {
+	// ---------- metadata (A-md) ----------
+	ext(pkgMetadata+".NewIncomingContext", "metadata.NewIncomingContext(p,md): child context c with incoming metadata md", func(c *ExtCtx) Val {
+		ref := c.newCtx(c.args[0], "inctx")
+		c.inheritDeadline(ref, c.args[0])
+		c.st.pc = c.st.pc[:len(c.st.pc)] // keep
+		c.st.assume("(= (ctx_md_in2 " + ref.T + ") " + c.args[1].T + ")")
+		return ref
+	})
+	ext(pkgMetadata+".FromIncomingContext", "metadata.FromIncomingContext(ctx): (md, ok) - unconstrained here", func(c *ExtCtx) Val {
+		return c.tuple(c.fresh(0, "inmd"), c.fresh(1, "inmd.ok"))
+	})
+	ext(pkgMetadata+".FromOutgoingContext", "metadata.FromOutgoingContext(ctx): (ctx_md_out(ctx), ctx_has_md_out(ctx))", func(c *ExtCtx) Val {
+		return c.tuple(c.mk(0, "(ctx_md_out "+c.args[0].T+")"), c.mk(1, "(ctx_has_md_out "+c.args[0].T+")"))
+	})
+	ext(pkgMetadata+".Join", "metadata.Join(mds...): a fresh non-nil MD (per-key concatenation in argument order: joinOf(mds))", func(c *ExtCtx) Val {
+		m := c.fresh(0, "joined")
+		c.st.assume("(distinct " + m.T + " 0)")
+		c.st.assume("(= " + m.T + " (mdJoin " + c.args[0].T + "))")
+		return m
+	})
+	// user code reached through function-valued fields (A-user, F1)
+	ext("fnfield:H.google.golang.org/grpc.MethodDesc.Handler", "grpc.MethodDesc.Handler(srv,ctx,dec,interceptor): user handler; may call dec and set headers/trailers on the unary transport stream; writes no other goat state", func(c *ExtCtx) Val {
+		for _, a := range externalWrites["fnfield:H.google.golang.org/grpc.MethodDesc.Handler"] {
+			c.st.havoc(a)
+		}
+		return c.tuple(c.fresh(0, "handler.resp"), c.fresh(1, "handler.err"))
+	})
+	externalWrites["fnfield:*"] = []string{
+		"H.server.unaryServerTransportStream.headers", "H.server.unaryServerTransportStream.headersSent", "H.server.unaryServerTransportStream.trailers"}
+	externalWrites["fnfield:H.google.golang.org/grpc.MethodDesc.Handler"] = []string{
+		"H.server.unaryServerTransportStream.headers", "H.server.unaryServerTransportStream.headersSent", "H.server.unaryServerTransportStream.trailers"}
 }
